@@ -61,6 +61,9 @@ def shards(tier):
                         out.append({"op": op.key, "dimA": dimA, "dimB": dimB, "sysA": list(sa)})
                 else:
                     out.append({"op": op.key, "dimA": dimA, "dimB": dimB})
+    for dim in (2, 3, 4):
+        for sysx in L.SYSTEMS[dim]:
+            out.append({"kind": "mutation", "dim": dim, "sys": list(sysx)})
     return out
 
 
@@ -358,8 +361,84 @@ def configs(ba, bb, tier):
     return [(None, None)]
 
 
+def run_mutation(res: Result, dim, system, tier):
+    """Element i equals the object-backend result for element i *also after the array was updated through the container's own
+    public assignment API* (ak.Array / ndarray item assignment of a coordinate field): everything is evaluated once, one stored
+    coordinate field is re-assigned in place, and everything is evaluated again on the same array object."""
+    vs = [v for v in A.representatives([v for v in A.vectors(dim, tier) if _well(v) and not v.has("wildphi")], 4)]
+    rows0 = [tuple(float(x) for x in S.stored(v, system)) for v in vs if S.stored(v, system) is not None]
+    if len(rows0) < 2:
+        return
+    unary = [op for op in OPS if op.other is None and dim in op.dims and not op.scalars]
+    for flavor in ("generic", "momentum"):
+        fnames = L.field_names(system, flavor)
+        for backend, cfg in (("AKA", "flat"), ("AKA", "jagged"), ("NP", "1d")):
+            for fi, fname in enumerate(fnames):
+                arr = make(backend, system, flavor, rows0, cfg)
+                stored_name = (ak.fields(arr) if backend == "AKA" else arr.dtype.names)[fi]
+                ops_here = [op for op in unary if not (op.momentum_only and flavor != "momentum")]
+                for op in ops_here:  # first evaluation (fills whatever the backend may keep)
+                    try:
+                        op.call(arr, [], {})
+                    except Exception:  # noqa: BLE001
+                        pass
+                delta = 0.375 if L.field_names(system)[fi] not in ("theta",) else 0.125
+                try:
+                    arr[stored_name] = arr[stored_name] + delta
+                except Exception as e:  # noqa: BLE001
+                    res.count("field_assignment_not_supported")
+                    continue
+                rows1 = [tuple(x + (delta if j == fi else 0.0) for j, x in enumerate(r)) for r in rows0]
+                elems = element_rows(backend, rows1, cfg)
+                objs = [B.make_obj(system, flavor, rows1[i]) for i in elems]
+                case = {"kind": "mutation", "dim": dim, "sys": list(system), "flavor": flavor, "backend": backend, "cfg": cfg, "field": fname}
+                for op in ops_here:
+                    res.states += 1
+                    res.evaluations += 1
+                    res.transitions += 1 + len(objs)
+                    cls = f"mutation|{op.key}|{backend}|{cfg}|{L.sysname(system)}"
+                    try:
+                        r = op.call(arr, [], {})
+                        if op.ret == "vec":
+                            _, rsys, _, rrows, _ = B.result_rows(r)
+                            got = [("vec", rsys, x) for x in rrows]
+                        else:
+                            got = [("num", x) for x in B.scalar_values(r)[0]]
+                    except Exception as e:  # noqa: BLE001
+                        res.violation(cls + "|raises", f"{op.key} after assigning field {fname} raised {type(e).__name__}: {str(e)[:140]}", dict(case, op=op.key))
+                        continue
+                    bad = None
+                    if len(got) != len(objs):
+                        bad = f"{len(got)} elements, expected {len(objs)}"
+                    for k, o in enumerate(objs):
+                        if bad:
+                            break
+                        res.traces += 1
+                        try:
+                            ref = op.call(o, [], {})
+                        except Exception:  # noqa: BLE001
+                            continue
+                        if op.ret == "vec":
+                            osys, ost = L.system_of(ref)
+                            if osys != got[k][1] or not all((angle_close(float(p), float(q)) if n == "phi" else fclose(float(p), float(q), 64.0)) for n, p, q in zip(L.field_names(osys), got[k][2], ost)):
+                                bad = f"element {k}: {got[k][1:]} but the object backend gives {osys}{tuple(float(x) for x in ost)} for the updated coordinates {rows1[elems[k]]}"
+                        elif op.ret == "bool":
+                            if bool(got[k][1]) != bool(ref):
+                                bad = f"element {k}: {got[k][1]} but the object backend gives {ref}"
+                        elif not (angle_close(float(got[k][1]), float(ref)) if op.name in ("phi",) else fclose(float(got[k][1]), float(ref), 64.0)):
+                            bad = f"element {k}: {got[k][1]!r} but the object backend gives {float(ref)!r} for the updated coordinates {rows1[elems[k]]}"
+                    if bad:
+                        res.violation(cls, f"{op.key} after arr[{stored_name!r}] = ... : {bad}", dict(case, op=op.key))
+                    else:
+                        res.nontrivial += 1
+    res.sample({"kind": "mutation", "sys": list(system), "unary_operations": len(unary), "backends": ["AKA flat", "AKA jagged", "NP 1d"]})
+
+
 def run_shard(shard, tier):
     res = Result()
+    if shard.get("kind") == "mutation":
+        run_mutation(res, shard["dim"], tuple(shard["sys"]), tier)
+        return res
     op = BY_KEY[shard["op"]]
     dimA, dimB = shard["dimA"], shard["dimB"]
     only_sa = tuple(shard["sysA"]) if "sysA" in shard else None
@@ -510,6 +589,9 @@ def run_int_dtype(res: Result, op, dimA, dimB, tier, dtype="int64"):
 
 def replay(case):
     res = Result()
+    if case.get("kind") == "mutation":
+        run_mutation(res, case["dim"], tuple(case["sys"]), "quick")
+        return res
     op = BY_KEY[case["op"]]
     if case.get("dtype"):
         sa = tuple(case["sysA"])
